@@ -473,14 +473,16 @@ func do_PRINT_EXPR(vm *Vm, arg int32) error {
 			}
 		}
 	}
-	vm.frame.Globals["_"] = py.None
-	if value != py.None {
-		repr, err := py.Repr(value)
-		if err != nil {
-			return err
-		}
-		PrintExpr(fmt.Sprint(repr))
+	// None is neither printed nor assigned to '_'
+	if value == py.None {
+		return nil
 	}
+	vm.frame.Globals["_"] = py.None
+	repr, err := py.Repr(value)
+	if err != nil {
+		return err
+	}
+	PrintExpr(fmt.Sprint(repr))
 	vm.frame.Globals["_"] = value
 	return nil
 }
